@@ -6,7 +6,8 @@ Writes seeded/DETECTION.json and the `detection` field of each meta.json."""
 import json, os, subprocess, sys, time
 
 VERIF = os.path.dirname(os.path.dirname(os.path.abspath(__file__)))
-EXTRA = {"C05-m8": ["C07"], "C04-m2": ["C19"], "C09-m5": ["C14"], "C01-m6": ["C06"], "C05-m7": ["C04"], "C09-m8": ["C14"], "C01-m8": ["C05"]}  # the same change is also (only) visible through another property's check
+EXTRA = {"C05-m8": ["C07"], "C04-m2": ["C19"], "C09-m5": ["C14"], "C01-m6": ["C06"], "C05-m7": ["C04"], "C09-m8": ["C14"], "C01-m8": ["C05"],
+         "C01-m10": ["C05"], "C02-m9": ["C09"], "C09-m9": ["C15"], "C15-m10": ["C09"], "C19-m9": ["C04"]}  # the same change is also (only) visible through another property's check
 
 
 def sh(cmd, **kw):
